@@ -44,7 +44,7 @@ set_option linter.unusedSectionVars false
 namespace BHS.Props.C15
 open BHS BHS.Chain
 open BHS.Props.C01 (IsRoot HashAvoids exCfg exRoot exSrc exHist exStore exNext exStore_eq exAvoids C01_inv_init
-  C01_canonical_partial)
+  C01_canonical exZero)
 open BHS.Props.C05 (C05_struct_valid C05_inv_struct C05_restart_id ex_three_writes)
 variable {H : Type} [DecidableEq H]
 
@@ -133,23 +133,30 @@ theorem C15_blocks_exclusive (cfg : Cfg H) (s : Store H) (xs : List (Src H)) (or
     Exclusive cfg (initWorld s xs) (blockSchedule order) :=
   exclusive_blockSchedule cfg order _ (idleBut_init s xs)
 
-/-- in particular never two longest-chain headers at one height: from the root row, with positive-work headers, the
-    final store of every complete exclusive schedule satisfies the invariant of C01, hence is canonically labelled
-    and structurally valid -/
+/-- in particular never two longest-chain headers at one height: from the root row, with ANY headers (zero-work ones
+    included), the final store of every complete exclusive schedule satisfies the invariant of C01, hence is
+    canonically labelled and structurally valid -/
 theorem C15_final_valid (cfg : Cfg H) (g : Row H) (hg : IsRoot g) (hz : HashAvoids cfg g.prev)
-    (xs : List (Src H)) (hpos : ∀ x ∈ xs, 0 < work x.bits) (sched : List Nat)
+    (xs : List (Src H)) (sched : List Nat)
     (hex : Exclusive cfg (initWorld [g] xs) sched) (hd : AllDone (runSchedule cfg (initWorld [g] xs) sched)) :
     Inv cfg (runSchedule cfg (initWorld [g] xs) sched).store ∧ Canon (runSchedule cfg (initWorld [g] xs) sched).store ∧
       StructValid (runSchedule cfg (initWorld [g] xs) sched).store := by
   obtain ⟨e, hp⟩ := C15_serial_if_exclusive cfg [g] xs sched hex hd
   rw [e]
-  have h := C01_canonical_partial cfg g hg hz _ (fun x hx => hpos x (hp.mem_iff.1 hx))
+  have h := C01_canonical cfg g hg hz ((startOrder cfg (initWorld [g] xs) sched).filterMap (fun k : Nat => xs[k]?))
   exact ⟨h.1, h.2, C05_inv_struct cfg _ h.1⟩
 
-example : IsRoot exRoot ∧ HashAvoids exCfg exRoot.prev ∧ (∀ x ∈ exHist, 0 < work x.bits) ∧
+example : IsRoot exRoot ∧ HashAvoids exCfg exRoot.prev ∧
     Exclusive exCfg (initWorld [exRoot] exHist) (blockSchedule [0, 1, 2, 3, 4]) ∧
     AllDone (runSchedule exCfg (initWorld [exRoot] exHist) (blockSchedule [0, 1, 2, 3, 4])) :=
-  ⟨by decide, exAvoids, by decide, by decide, by decide⟩
+  ⟨by decide, exAvoids, by decide, by decide⟩
+
+/-- with a zero-work header on the tip among the submissions: the schedule completes and that header is STALE -/
+example : (∃ x ∈ exHist ++ [exZero], work x.bits = 0) ∧
+    Exclusive exCfg (initWorld [exRoot] (exHist ++ [exZero])) (blockSchedule [0, 1, 2, 3, 4, 5]) ∧
+    AllDone (runSchedule exCfg (initWorld [exRoot] (exHist ++ [exZero])) (blockSchedule [0, 1, 2, 3, 4, 5])) ∧
+    (∃ r ∈ (runSchedule exCfg (initWorld [exRoot] (exHist ++ [exZero])) (blockSchedule [0, 1, 2, 3, 4, 5])).store,
+      r.work = 0 ∧ r.st = .stale) := by decide
 
 /-! ### what a reader can observe -/
 
@@ -191,31 +198,25 @@ example : (runThread exCfg 5 exStore { x := exNext, pc := .start }).1 = exStore 
     StructValid (runThread exCfg 6 exStore { x := exNext, pc := .start }).1 ∧
     StructValid (runThread exCfg 7 exStore { x := exNext, pc := .start }).1 := by decide
 
-/-- lifted to schedules: from the root row, with positive-work headers, EVERY intermediate store of a schedule the
+/-- lifted to schedules: from the root row, with ANY headers, EVERY intermediate store of a schedule the
     mutex admits (the store after any prefix of the schedule — the schedule need not be complete) is structurally
     valid and its reported tip is a LONGEST_CHAIN row -/
 theorem C15_reader_view_exclusive (cfg : Cfg H) (g : Row H) (hg : IsRoot g) (hz : HashAvoids cfg g.prev)
-    (xs : List (Src H)) (hpos : ∀ x ∈ xs, 0 < work x.bits) (sched : List Nat)
+    (xs : List (Src H)) (sched : List Nat)
     (hex : Exclusive cfg (initWorld [g] xs) sched) (n : Nat) :
     StructValid (runSchedule cfg (initWorld [g] xs) (sched.take n)).store ∧
       ∃ t ∈ (runSchedule cfg (initWorld [g] xs) (sched.take n)).store,
         getTip (runSchedule cfg (initWorld [g] xs) (sched.take n)).store = some t ∧ t.st = .lc := by
   have hm := Mutex.run (sched.take n) (mutex_init cfg [g] xs) (exclusive_take cfg hex n)
   rw [srcAt_init, List.nil_append] at hm
-  have hl : ∀ y ∈ (startOrder cfg (initWorld [g] xs) (sched.take n)).filterMap (fun k : Nat => xs[k]?), y ∈ xs := by
-    intro y hy
-    obtain ⟨k, _, e⟩ := List.mem_filterMap.1 hy
-    exact List.mem_of_getElem? e
   have hg1 : g ∈ [g] := List.mem_singleton.2 rfl
   have hi0 := C01_inv_init cfg g hg
   have key : StructValid (runSchedule cfg (initWorld [g] xs) (sched.take n)).store := by
     rcases hm.store_shape with e | ⟨l0, x, k, el, e⟩
     · rw [e]
-      exact C05_inv_struct cfg _ (hi0.run hz _ hg1 hg.1 (fun y hy => hpos y (hl y hy)))
+      exact C05_inv_struct cfg _ (hi0.run hz _ hg1 hg.1)
     · rw [e]
-      have hl0 : ∀ y ∈ l0, 0 < work y.bits := fun y hy =>
-        hpos y (hl y (by rw [el]; exact List.mem_append_left _ hy))
-      have hinv := hi0.run hz l0 hg1 hg.1 hl0
+      have hinv := hi0.run hz l0 hg1 hg.1
       have hgm := run_keeps_root hz hg.1 l0 [g] hi0.1 hg1
       have hs := (C05_struct_valid cfg _ x g hgm hg.1 hz hinv k).1
       rw [restart_of_preserved (rowsPreserved_addPrefix cfg _ x k) hgm] at hs
@@ -224,9 +225,9 @@ theorem C15_reader_view_exclusive (cfg : Cfg H) (g : Row H) (hg : IsRoot g) (hz 
   obtain ⟨t, ht, htip, _⟩ := key
   exact ⟨t, ht, htip, (getTip_lc htip).2⟩
 
-example : IsRoot exRoot ∧ HashAvoids exCfg exRoot.prev ∧ (∀ x ∈ exHist, 0 < work x.bits) ∧
+example : IsRoot exRoot ∧ HashAvoids exCfg exRoot.prev ∧
     Exclusive exCfg (initWorld [exRoot] exHist) (blockSchedule [0, 1, 2, 3, 4]) :=
-  ⟨by decide, exAvoids, by decide, by decide⟩
+  ⟨by decide, exAvoids, by decide⟩
 
 /-! ### without the mutex the property fails -/
 
